@@ -40,7 +40,7 @@ ASSUMPTIONS = [
 def C(name, props, **kw):
     d = dict(name=name, props=set(props.split()), targets=[b'a', b'b'], flavour='redo', keep_going=False, top_level=2, pipe0=1,
              others0=0, prior=None, other_locks=None, sub_target=None, shuffle=False, no_do=(), select_budget=0, race=(), deps=(),
-             free_at_try=None)
+             free_at_try=None, cycles=())
     d.update(kw)
     return d
 
@@ -85,6 +85,10 @@ def configs(thorough):
           targets=[b't', b'u'], top_level=0, pipe0=1,
           prior={b't': (CLEAN_ROW, tuple(S1)), b'u': (CLEAN_ROW, tuple(S1)), b's': (CSUM_ROW, tuple(S2))},
           deps=((b't', b's', b'm'), (b'u', b's', b'm'))),
+        C('ifchange a b inside b.do -> ... : b is being built by an ancestor (cycle)', 'C12 C09', flavour='ifchange', top_level=0, pipe0=1,
+          cycles=(b'b',), sub_target=b'top'),
+        C('ifchange b a -k: b is being built by an ancestor (cycle)', 'C12', flavour='ifchange', top_level=0, pipe0=1, keep_going=True,
+          targets=[b'b', b'a'], cycles=(b'b',)),
         C('ifchange a b inside top.do (redo-log may hold the log lock)', 'C08 C09', flavour='ifchange', top_level=0, pipe0=0, others0=1,
           sub_target=b'top'),
     ]
@@ -165,7 +169,7 @@ def run_config(chk, pid, cfg):
                                          pipe0=cfg['pipe0'], others0=cfg['others0'], runid=R, should_build=sb, max_wakeups=12,
                                          prior=cfg['prior'], other_locks=cfg['other_locks'], sub_target=cfg['sub_target'],
                                          shuffle=cfg['shuffle'], no_do=cfg['no_do'], race=cfg['race'], deps=cfg['deps'],
-                                         free_at_try=cfg['free_at_try'])
+                                         free_at_try=cfg['free_at_try'], cycles=cfg['cycles'])
         w.select_budget = cfg['select_budget']
         st.update(w=w, hang=None, res=None, r2=None, phase='run')
         try:
@@ -191,12 +195,13 @@ def run_config(chk, pid, cfg):
                'statuses': F['status_by_target'], 'events': F['digest'], 'scenario': scenario_key(cfg, F),
                'other_locks': {k.decode('latin-1'): v for k, v in (cfg['other_locks'] or {}).items()},
                'variant': 'locked' if cfg['other_locks'] else ('unlocked-job' if cfg['deps'] else 'plain')}
-        chk.goal('sched: two jobs run at the same time', w.max_running >= 2)
-        chk.goal('sched: a job fails', any(v == 'fail' for v in F['status_by_target'].values()))
-        chk.goal('sched: run() returns Ok', outcome == 'ok' and val[0] is not None and val[0].var == 'Ok')
-        chk.goal('sched: run() returns Err', outcome == 'ok' and val[0] is not None and val[0].var == 'Err')
-        if any(k == 'wait-lock' for k, d in w.log):
-            chk.goal('sched: the process blocks on a lock held by another redo')
+        if pid != 'C12':
+            chk.goal('sched: two jobs run at the same time', w.max_running >= 2)
+            chk.goal('sched: a job fails', any(v == 'fail' for v in F['status_by_target'].values()))
+            chk.goal('sched: run() returns Ok', outcome == 'ok' and val[0] is not None and val[0].var == 'Ok')
+            chk.goal('sched: run() returns Err', outcome == 'ok' and val[0] is not None and val[0].var == 'Err')
+            if any(k == 'wait-lock' for k, d in w.log):
+                chk.goal('sched: the process blocks on a lock held by another redo')
         bad = JUDGES[pid](chk, eng, cfg, st, F, outcome, val, wit)
         return bad
 
@@ -532,7 +537,7 @@ def judge_c09(chk, eng, cfg, st, F, outcome, val, wit):
                     'what': 'the process blocks in F_SETLKW while holding %s job token(s)' % wt['my_tokens']}
     sts = F['status_by_target']
     if res == 'Err' and sts and all(s == 'ok' for s in sts.values()) and not cfg['prior'] and not cfg['no_do'] and \
-            not any(o == 'failed' for o in (cfg['other_locks'] or {}).values()) and all(cfg['targets']):
+            not any(o == 'failed' for o in (cfg['other_locks'] or {}).values()) and all(cfg['targets']) and not cfg['cycles']:
         return {'role': 'sched:error-although-all-scripts-succeed', 'kind': 'sched', 'witness': wit,
                 'what': 'every script succeeds but the command fails: %s' % err_msg(eng, val)}
     if res == 'Ok':
@@ -540,7 +545,41 @@ def judge_c09(chk, eng, cfg, st, F, outcome, val, wit):
     return None
 
 
-JUDGES = {'C05': judge_c05, 'C06': judge_c06, 'C07': judge_c07, 'C08': judge_c08, 'C09': judge_c09}
+def judge_c12(chk, eng, cfg, st, F, outcome, val, wit):
+    if st.get('hang'):
+        return {'role': 'sched:cycle-hang', 'kind': 'sched', 'witness': wit,
+                'what': 'a target that an ancestor of this process is building is waited for instead of reported as a cycle: ' + st['hang']}
+    if outcome == 'panic':
+        return {'role': 'sched:cycle-panic', 'kind': 'sched', 'witness': wit, 'what': 'abort while a cycle is present: %s' % val.msg}
+    if outcome != 'ok':
+        return None
+    chk.goal('C12: a requested target is being built by an ancestor')
+    res = result_var(val)
+    cyc = [n.decode('latin-1') for n in cfg['cycles']]
+    again = [f['target'] for f in F['forks'] if f['target'] in cyc]
+    if again:
+        return {'role': 'sched:cycle-target-started', 'kind': 'sched', 'witness': wit,
+                'what': 'the script of %s is started although an ancestor of this process is building it' % again}
+    if res != 'Err':
+        return {'role': 'sched:cycle-not-reported', 'kind': 'sched', 'witness': wit,
+                'what': 'builder::run returns Ok although a requested target is being built by an ancestor of this process'}
+    from specs.jobcheck import err_text
+    e = deref_all(val[0].f[0])
+    kind = repr(e.f[0]) if isinstance(e, Struct) and e.f else ''
+    msg = err_msg(eng, val)
+    failed = [t for t, sc in F['status_by_target'].items() if sc == 'fail']
+    if failed and not cfg['keep_going']:
+        return None           # the command stopped at the failure of before it reached the cycle
+    chk.goal('C12: the cycle is reached and reported')
+    if 'CyclicDependency' not in kind and 'yclic' not in msg and not failed:
+        return {'role': 'sched:cycle-wrong-error', 'kind': 'sched', 'witness': wit,
+                'what': 'the command fails, but not with a cyclic dependency error: %s' % msg[:200]}
+    if F['waits']:
+        return {'role': 'sched:cycle-waits', 'kind': 'sched', 'witness': wit, 'what': 'a blocking lock wait happens on the way to the cycle error'}
+    return None
+
+
+JUDGES = {'C12': judge_c12, 'C05': judge_c05, 'C06': judge_c06, 'C07': judge_c07, 'C08': judge_c08, 'C09': judge_c09}
 
 
 TRACE_DO = 'echo %s >> trace\necho out-%s\n'
